@@ -16,6 +16,9 @@ THEOREMS = [
     "Typedpy.C02.immutableSet_reads_frozenset", "Typedpy.C02.decision_example",
     "Typedpy.C02.fmtMatch_formatOracles", "Typedpy.C02.string_field_exact", "Typedpy.C02.ipv4_field_exact",
     "Typedpy.C02.hostname_field_exact", "Typedpy.C02.sized_string_bound", "Typedpy.C02.format_example",
+    "Typedpy.C02.toDecimal_exact", "Typedpy.C02.toDecimal_reject", "Typedpy.C02.decimal_field_exact",
+    "Typedpy.C02.decimal_field_reject", "Typedpy.C02.decimal_reads_decimal", "Typedpy.C02.constructD_complete",
+    "Typedpy.C02.constructD_reject", "Typedpy.C02.decimal_example",
 ]
 RULE = ("classes from the type-directed declaration generator (depth <= 3/4, each constraint keyword p~0.35); "
         "per field: valid-by-construction kwargs, ALL boundary neighbours of every bound (enumerated), one value "
@@ -34,12 +37,15 @@ def cases(rng, tier):
     ext = S.gen_cases(random.Random("ext" + str(rng.getstate()[1][0])), tier, 70 if tier == "quick" else 1000, ext=True, prefix="E") + S.xstring_cases()
     # arguments that are the library's own typed wrappers, read from a laxly declared field of another instance
     tp = S.transplant_cases(random.Random("tp" + str(rng.getstate()[1][0])), tier, 60 if tier == "quick" else 800)
-    return base + ext + tp
+    # DecimalNumber (Sem/Decimal.lean): bare, Array items, Map values
+    dec = S.decimal_cases(random.Random("dec" + str(rng.getstate()[1][0])), tier, 40 if tier == "quick" else 500)
+    return base + ext + tp + dec
 
 
 def search_cases(rng, tier):
     return S.gen_cases(rng, "thorough", 400) + S.gen_cases(random.Random("ext-s" + str(rng.getstate()[1][0])), "thorough", 200, ext=True, prefix="E") \
-        + S.transplant_cases(random.Random("tp-s" + str(rng.getstate()[1][0])), "thorough", 150)
+        + S.transplant_cases(random.Random("tp-s" + str(rng.getstate()[1][0])), "thorough", 150) \
+        + S.decimal_cases(random.Random("dec-s" + str(rng.getstate()[1][0])), "thorough", 100)
 
 
 def _x(case):
@@ -95,6 +101,8 @@ def judge(case, impl, model):
         return None, ([] if "skip" in impl else X.judge_decimal_ctor(case, impl))
     if _x(case):
         return None, X.judge_ctor(case, impl)
+    if model is None:
+        return None, S.oracle_only_findings(case, impl)
     dev = S.deviation_findings(case, impl, "accepts-undocumented", "rejects-documented")        # the library's bare formatted-string field vs the documented language
     msg = S.correspondence(case, impl, model)
     fails = list(dev)
